@@ -340,6 +340,25 @@ def run_check(prop, tier, seed, *, n_runs=None, budget_s=None, workers=None):
     budget_s = budget_s or engine.budget(prop, tier)['seconds']
     print(f'[{prop}] engine={engine_name} tier={tier} VERIF_SEED={seed} runs<={n_runs} budget={budget_s}s', flush=True)
     t0 = time.monotonic()
+    # regression replays: the minimised plans of defects that were repaired must stay quiet ("fixed" suppresses nothing)
+    regress_lines, regress_n = [], 0
+    for path in sorted((VERIF / 'replays' / 'fixed').glob('*.json')):
+        try:
+            data = json.loads(path.read_text())
+        except ValueError:
+            continue
+        exp = data.get('expect', {})
+        if data.get('engine') != engine_name:
+            continue
+        cls = (exp.get('property'), exp.get('clause'), exp.get('frame'))
+        out = execute(engine, data['plan'])
+        regress_n += 1
+        same_prop = [v for v in out.violations if v['property'] == prop]
+        if out.harness_error:
+            continue      # a stored plan the current executor can no longer run is not evidence either way
+        if any(vclass(v) == cls for v in same_prop) and cls[0] == prop:
+            regress_lines.append(f'VIOLATION property={prop} replay={path}')
+            print(f'  regression: the repaired defect of {path.name} is back (class {cls})')
     results, harness, wall = run_batch(engine_name, seed, tier, n_runs, prop=prop, budget_s=budget_s, workers=workers)
     for c in results:
         if c['harness_error']:
@@ -389,8 +408,12 @@ def run_check(prop, tier, seed, *, n_runs=None, budget_s=None, workers=None):
         lines.append(f'VIOLATION property={prop} replay={path}')
         print(f'  class={cls} runs={len(cs)} minimise_steps={steps} detail={v_small["detail"][:300]}')
     wall = time.monotonic() - t0
+    n_viol += len(regress_lines)
+    lines = regress_lines + lines
     write_evidence(prop, tier, seed, engine, results, wall, violations=n_viol,
-                   known_hits=dict(known_hits), harness=harness)
+                   known_hits=dict(known_hits), harness=harness,
+                   extra={'regression_replays': {'executed': regress_n, 'reproduced': len(regress_lines),
+                                                 'note': 'minimised plans of repaired defects (replays/fixed) re-executed first; none may reproduce'}})
     for line in lines:
         print(line)
     if harness:
